@@ -8,7 +8,7 @@ CONSTANTS
   Fmts = {"bc", "idx_bc"}
   NFiles = {1}
   Lazy = {FALSE, TRUE}
-  Touches = {"lookup", "getitem"}
+  Touches = {"lookup"}
   Variant = "design"
 CONSTRAINT Emit
 CONSTRAINT OnlyInit
